@@ -198,6 +198,11 @@ CURATED = [
     "def p(i: Qint[2], j: Qint[2]) -> Qint[4]:\n\tc = [[1, 2, 3], [4, 5, 6]]\n\treturn c[i][j]",
     "def p(i: Qint[2], j: Qint[2]) -> Qint[4]:\n\tc = [[1, 2], [3, 4], [5, 6]]\n\treturn c[i][j]",
     "def p(i: Qint[2]) -> Qint[4]:\n\tc = [[1, 2, 3], [4, 5, 6]]\n\treturn c[1][i] + c[0][i]",
+    # wide disjunctions NESTED inside wide disjunctions / conjunctions (the synthesiser only handles two-operand Ors: every wide one must be rewritten, at any depth)
+    "def p(a: bool, b: bool, c: bool, d: bool, e: bool, g: bool) -> bool:\n\treturn ((a or b or c) and d) or e or g",
+    "def p(a: bool, b: bool, c: bool, d: bool, e: bool) -> bool:\n\treturn (a or b or (c and (d or e or a))) and not (b or c or d)",
+    "def p(a: bool, b: bool, c: bool, d: bool) -> bool:\n\treturn not (a or b or c) or (d and (a or c or d)) or (b and d)",
+    "def p(a: bool, b: bool, c: bool, d: bool, e: bool) -> bool:\n\treturn ((a or b or c or d) ^ e) or (a and b) or (c and (a or d or e))",
     # modulo: literal power of two, literal non-power (outside the subset), variable modulus
     "def p(a: Qint[4]) -> Qint[4]:\n\treturn a % 4",
     "def p(a: Qint[4]) -> Qint[4]:\n\treturn a % 3",
